@@ -5,7 +5,12 @@ import os
 import re
 
 VERIF = os.path.dirname(os.path.dirname(os.path.abspath(__file__)))
-res = json.load(open(os.path.join(VERIF, 'seeded', 'results.json')))
+res = {}
+import glob
+for rp in sorted(glob.glob(os.path.join(VERIF, 'seeded', 'results*.json')), key=os.path.getmtime):
+    for k, v in json.load(open(rp)).items():
+        if k not in res or v.get('checks'):
+            res[k] = v
 rows = ['| seed | breaks | change (needs) | caught by | missed by |', '|---|---|---|---|---|']
 for sid in sorted(os.listdir(os.path.join(VERIF, 'seeded'))):
     mp = os.path.join(VERIF, 'seeded', sid, 'meta.json')
